@@ -1056,6 +1056,26 @@ func (o *oC08hq) OnEvent(k *Kernel, ev *Event) {
 			k.Violate("C08", "seen-only-if-recorded", "skipped-after-failed-hq-seencheck", fmt.Sprintf("%s marked seen although the crawl-HQ seencheck call failed", u))
 			return
 		}
+		if !it.IsChild() && o.r.hq != nil {
+			// a seed or redirect target is only skipped when the store has seen its URL as a seed before
+			calls := o.r.hq.snapshot()
+			for i := len(calls) - 1; i >= 0; i-- {
+				c := calls[i]
+				if c.Kind != "seencheck" || c.Prior == nil {
+					continue
+				}
+				prior, ok := c.Prior[it.GetURL().String()]
+				if !ok {
+					prior, ok = c.Prior[u]
+				}
+				if ok {
+					if prior == "asset" {
+						k.Violate("C08", "seen-only-if-recorded", "redirect-target-skipped-though-only-seen-as-asset", fmt.Sprintf("%s is a seed or redirect target, crawl HQ had only seen this URL as an asset, yet it was skipped as already seen", u))
+					}
+					break
+				}
+			}
+		}
 		if !in(o.asked[ev.Actor]) {
 			k.Violate("C08", "seen-only-if-recorded", "skipped-without-asking-hq", fmt.Sprintf("%s marked seen but it was not part of the seencheck request", u))
 		} else if in(o.answer[ev.Actor]) {
